@@ -441,6 +441,29 @@ Section GoodLaws.
     specialize (H Hlt). destruct H as [h1 h2 h3 h4]. split; assumption.
   Qed.
 
+  Lemma good_lt_iter_fuel {St} F (body : St -> dec St) :
+    (forall s, good_lt F (body s)) -> (forall s, strict_lt F (body s)) ->
+    forall fuel count s bs, blen bs < F -> blen bs < Z.of_nat fuel -> good_at (iter_fuel fuel count body s) bs.
+  Proof.
+    intros Gb Sb. induction fuel as [|f IH]; intros count s bs HF Hf.
+    - pose proof (blen_nonneg bs). lia.
+    - cbn [iter_fuel]. destruct (count <=? 0); [apply good_ret|].
+      apply good_at_bind; [apply Gb; exact HF|]. intros t a r Ei.
+      pose proof (Sb _ _ HF _ _ _ Ei). apply IH; lia.
+  Qed.
+
+  Lemma good_lt_iter {St} F (body : St -> dec St) count s :
+    (forall s, good_lt F (body s)) -> (forall s, strict_lt F (body s)) -> good_lt F (iter count body s).
+  Proof.
+    intros Gb Sb bs HF. unfold iter.
+    pose proof (good_lt_iter_fuel F body Gb Sb (S (length bs)) count s bs HF) as H.
+    assert (Hlt : blen bs < Z.of_nat (S (length bs))) by (unfold blen; lia).
+    specialize (H Hlt). destruct H as [h1 h2 h3 h4]. split; assumption.
+  Qed.
+
+  Lemma good_of_good_lt {A} (m : dec A) : (forall F, good_lt F m) -> good m.
+  Proof. intros H bs. apply (H (blen bs + 1)). lia. Qed.
+
   (** ** primitives *)
   Lemma good_read_exact n : good (read_exact n).
   Proof.
